@@ -485,7 +485,7 @@ def random_history(backend, seed, steps, focus, tmp):
 def main():
     with open(sys.argv[1]) as f:
         spec = json.load(f)
-    if spec.get("mode") in ("c01", "c06", "c18", "c06del", "c07"):
+    if spec.get("mode") in ("c01", "c06", "c18", "c06del", "c07", "c12", "c14"):
         json.dump(extra_main(spec), sys.stdout, default=str)
         return
     tmp0 = tempfile.mkdtemp(prefix="aw-storage-rt-")
@@ -785,6 +785,148 @@ def c07(backend, seed, n, tmp):
     return bad
 
 
+# =========================================================================================================
+# C14: migration of a legacy peewee v2 database into the sqlite store
+# =========================================================================================================
+def c14(seed, testing, tmp):
+    import hashlib
+    from aw_core.models import Event
+    from aw_datastore.storages import PeeweeStorage, SqliteStorage
+    rng = random.Random(seed)
+    os.environ["XDG_DATA_HOME"] = tmp
+    bad = []
+    pw = PeeweeStorage(testing=testing)
+    expect = {}
+    try:
+        for b in range(rng.randint(1, 3)):
+            bid = rng.choice(["bucket", "bücket-ü", "b b"]) + str(b)
+            data = rng.choice([None, {"k": "v"}, {"n": {"m": [1, 2]}}])
+            name = rng.choice([None, "nm"])
+            pw.create_bucket(bid, "t" + str(b), "client", "höst", dt(BASE + b * MS).isoformat(), name=name, data=data)
+            evs = []
+            for k in range(rng.randint(0, 6)):
+                evs.append(Event(timestamp=dt(BASE + rng.randint(0, 10 ** 6) * MS), duration=timedelta(microseconds=rng.choice([0, 1500, 10 ** 6, 86400 * 10 ** 6])),
+                                 data=copy.deepcopy(rng.choice(DATA))))
+            if evs:
+                if rng.random() < 0.5:
+                    pw.insert_many(bid, evs)
+                else:
+                    for e in evs:
+                        pw.insert_one(bid, e)
+            expect[bid] = {"meta": pw.get_metadata(bid),
+                           "events": sorted((us(e.timestamp), tdus(e.duration), json.dumps(e.data, sort_keys=True)) for e in pw.get_events(bid, -1))}
+        path = pw.db.database
+    finally:
+        pw.db.close()
+    before_bytes = hashlib.sha256(open(path, "rb").read()).hexdigest()
+    sq = SqliteStorage(testing=testing)      # default path, new file: migration runs
+    try:
+        got = sq.buckets()
+        if set(got.keys()) != set(expect.keys()):
+            bad.append(f"buckets after migration {sorted(got.keys())} != legacy {sorted(expect.keys())}")
+        for bid, ex in expect.items():
+            if bid not in got:
+                continue
+            for f in ("id", "type", "client", "hostname", "name", "data"):
+                if got[bid].get(f) != ex["meta"].get(f):
+                    bad.append(f"bucket {bid!r}: metadata {f} = {got[bid].get(f)!r}, legacy {ex['meta'].get(f)!r}")
+            import iso8601
+            if iso8601.parse_date(got[bid]["created"]) != iso8601.parse_date(ex["meta"]["created"]):
+                bad.append(f"bucket {bid!r}: created {got[bid]['created']} != {ex['meta']['created']}")
+            evs = sorted((us(e.timestamp), tdus(e.duration), json.dumps(e.data, sort_keys=True)) for e in sq.get_events(bid, -1))
+            if evs != ex["events"]:
+                bad.append(f"bucket {bid!r}: {len(evs)} events after migration, legacy has {len(ex['events'])} (dropped/duplicated/changed)")
+    finally:
+        sq.conn.close()
+        try:
+            from aw_datastore.storages import peewee as pwm
+            pwm._db.close()
+        except Exception:
+            pass
+    # the legacy store still holds what it held
+    pw2 = PeeweeStorage(testing=testing)
+    try:
+        for bid, ex in expect.items():
+            evs = sorted((us(e.timestamp), tdus(e.duration), json.dumps(e.data, sort_keys=True)) for e in pw2.get_events(bid, -1))
+            if evs != ex["events"] or pw2.get_metadata(bid) != ex["meta"]:
+                bad.append(f"legacy bucket {bid!r} changed by the migration")
+    finally:
+        pw2.db.close()
+    return bad, before_bytes == hashlib.sha256(open(path, "rb").read()).hexdigest()
+
+
+# =========================================================================================================
+# C12: queries only read, and query_bucket is a windowed read
+# =========================================================================================================
+PROGRAMS = [
+    'RETURN = query_bucket("b1");',
+    'e = query_bucket("b1"); e = flood(e); RETURN = e;',
+    'e = query_bucket("b1"); e = simplify_window_titles(e, "title"); RETURN = e;',
+    'e = query_bucket("b1"); RETURN = categorize(e, [[["A"], {"type": "regex", "regex": "a"}]]);',
+    'e = query_bucket("b1"); RETURN = tag(e, [["t", {"type": "regex", "regex": "a"}]]);',
+    'e = query_bucket("b1"); RETURN = split_url_events(e);',
+    'e = query_bucket("b1"); f = query_bucket("b2"); RETURN = period_union(e, f);',
+    'e = query_bucket("b1"); f = query_bucket("b2"); RETURN = filter_period_intersect(e, f);',
+    'e = query_bucket("b1"); f = query_bucket("b2"); RETURN = union_no_overlap(sort_by_timestamp(e), sort_by_timestamp(f));',
+    'e = query_bucket("b1"); RETURN = merge_events_by_keys(e, ["title"]);',
+    'e = query_bucket("b1"); RETURN = chunk_events_by_key(e, "title");',
+    'e = query_bucket("b1"); e = sort_by_duration(e); RETURN = limit_events(e, 1);',
+    'e = query_bucket("b1"); x = split_url_events(e); RETURN = nosuchfunction(x);',
+    'e = query_bucket("b1"); x = tag(e, [["t", {"type": "regex", "regex": "a"}]]); RETURN = query_bucket("nope");',
+    'e = query_bucket("b1"); x = categorize(e, [[["A"], {"type": "regex", "regex": "a"}]]); RETURN = filter_keyvals(x);',
+    'e = query_bucket("b1"); RETURN = sum_durations(e); RETURN = undefined_variable;',
+    'RETURN = query_bucket_eventcount("b1");',
+]
+
+
+def c12(backend, seed, tmp):
+    from aw_core.models import Event
+    from aw_query import query
+    rng = random.Random(seed)
+    h = Harness(backend, tmp)
+    bad = []
+    try:
+        for bid in ("b1", "b2"):
+            h.apply({"op": "create", "bucket": bid, "data": {"k": "v"}})
+            for k in range(rng.randint(0, 6)):
+                h.apply({"op": "insert", "bucket": bid, "event": [BASE + rng.randint(0, 20) * MS, rng.choice([0, 1, 2, 5]) * MS,
+                                                              copy.deepcopy(rng.choice([{"title": "a", "app": "x"}, {"title": "(1) b", "url": "http://www.a.b/c"}, {"title": "c"}]))]})
+
+        def snapshot():
+            out = {}
+            for bid in h.ds.buckets():
+                out[bid] = (json.dumps(h.ds[bid].metadata(), sort_keys=True, default=str),
+                            sorted((e.id, us(e.timestamp), tdus(e.duration), json.dumps(e.data, sort_keys=True)) for e in h.ds[bid].get(-1)))
+            return out
+        before = snapshot()
+        for prog in PROGRAMS:
+            s = BASE + rng.randint(-2, 22) * MS + rng.choice([0, 1, 500])
+            e = s + rng.choice([0, 1, 5, 30]) * MS + rng.choice([0, 499])
+            tz = timezone(timedelta(hours=rng.choice([0, 0, 5, -8])))
+            start, end = dt(s).astimezone(tz), dt(e).astimezone(tz)
+            try:
+                res = query("name", prog, start, end, h.ds)
+            except Exception as ex:
+                res = ex
+            after = snapshot()
+            if after != before:
+                bad.append(f"bucket contents changed by the query {prog!r}")
+                break
+            if prog == PROGRAMS[0] and not isinstance(res, Exception):
+                direct = h.ds["b1"].get(starttime=start, endtime=end)
+                f = lambda evs: [(x.id, us(x.timestamp), tdus(x.duration), x.data) for x in evs]
+                if f(res) != f(direct):
+                    bad.append(f"query_bucket differs from a direct windowed read: {f(res)} vs {f(direct)}")
+            if prog == PROGRAMS[-1] and not isinstance(res, Exception):
+                if res != h.ds["b1"].get_eventcount(starttime=start, endtime=end):
+                    bad.append(f"query_bucket_eventcount {res} differs from the direct count")
+    except Exception:
+        bad.append("exception: " + traceback.format_exc()[-600:])
+    finally:
+        close(h)
+    return bad
+
+
 def extra_main(spec):
     tmp0 = tempfile.mkdtemp(prefix="aw-storage-rt-")
     out = {"status": "ok", "runs": 0, "violations": []}
@@ -804,6 +946,14 @@ def extra_main(spec):
                     bad = c06_deletes(tmp) if be == "sqlite" and k == 0 else []
                 elif mode == "c07":
                     bad = c07(be, seed, spec.get("n", 25), tmp)
+                elif mode == "c12":
+                    bad = c12(be, seed, tmp)
+                elif mode == "c14":
+                    if be != "sqlite":
+                        bad = []
+                    else:
+                        bad, same_bytes = c14(seed, testing=(k % 2 == 0), tmp=tmp)
+                        out.setdefault("legacy_file_bytes_unchanged", []).append(same_bytes)
                 else:
                     raise ValueError(mode)
                 out["runs"] += 1
